@@ -2,6 +2,7 @@ package c12
 
 import (
 	"fmt"
+	"os"
 
 	"github.com/NethermindEth/juno/consensus/starknet"
 	"github.com/NethermindEth/juno/consensus/tendermint"
@@ -138,8 +139,20 @@ type sim struct {
 	splitLocks   bool
 }
 
+// endToEndOnly (env VERIF_C12_E2E_ONLY=1, used only for sensitivity experiments) silences every oracle except the
+// end-to-end ones of the property statement: agreement, validity, double vote/proposal.
+var endToEndOnly = os.Getenv("VERIF_C12_E2E_ONLY") == "1"
+
 func (s *sim) fail(key, f string, a ...any) {
 	s.rt.Helper()
+	if endToEndOnly {
+		switch key {
+		case "agreement", "validity", "double-vote", "double-proposal":
+		default:
+			s.c.Info("suppressed:" + key)
+			return
+		}
+	}
 	s.c.Violation(key, "%s\n---- configuration and schedule ----\n%s", fmt.Sprintf(f, a...), s.dump())
 }
 
